@@ -386,3 +386,83 @@ func genRect(rng *rand.Rand, w int) lpoly {
 	}
 	return p
 }
+
+// thin rectilinear spiral corridor: the boundary winds several times around the same few coarse pixels, reaches the inner
+// tip and returns along the other wall, so that the routed boundary at a coarse level repeats a *periodic* run of centres
+// (A B C D A B C D ... tip ... D C B A D C B A): the inputs on which kmpDeduplicate's search patterns overlap themselves
+func genSpiral(rng *rand.Rand, w int) lpoly {
+	max := w * 4
+	pitch := 2 + rng.Intn(3) // distance between successive turns of the centre line, lattice units
+	wd := 1 + rng.Intn(pitch-1)
+	if wd >= pitch {
+		wd = pitch - 1
+	}
+	o := rng.Intn(3)
+	size := max - o - rng.Intn(max/4+1)
+	if size < 4*pitch {
+		size = 4 * pitch
+	}
+	if o+size > max {
+		size = max - o
+	}
+	// centre-line corners of a counter-clockwise inward spiral: E, N, W, S, E, ...
+	dirs := [][2]int{{1, 0}, {0, 1}, {-1, 0}, {0, -1}}
+	x, y := o, o
+	corners := [][2]int{{x, y}}
+	leg := size - wd
+	maxLegs := 4 + rng.Intn(12)
+	for k := 0; leg > wd && k < maxLegs; k++ {
+		d := dirs[k%4]
+		x, y = x+d[0]*leg, y+d[1]*leg
+		corners = append(corners, [2]int{x, y})
+		if k == 0 {
+			continue // the first two legs have the same length
+		}
+		if k%2 == 0 || k == 1 {
+			leg -= pitch
+		}
+	}
+	if len(corners) < 3 {
+		return lpoly{[][2]int{{o, o}, {o + size, o}, {o + size, o + wd}, {o, o + wd}}}
+	}
+	// left offset of the polyline by wd (every turn is a left turn)
+	left := func(k int) [2]int { d := dirs[k%4]; return [2]int{-d[1], d[0]} }
+	n := len(corners) - 1 // number of legs
+	off := make([][2]int, len(corners))
+	for i := range corners {
+		var nx, ny int
+		switch {
+		case i == 0:
+			l := left(0)
+			nx, ny = l[0], l[1]
+		case i == n:
+			l := left(n - 1)
+			nx, ny = l[0], l[1]
+		default:
+			a, b := left(i-1), left(i)
+			nx, ny = a[0]+b[0], a[1]+b[1]
+		}
+		off[i] = [2]int{corners[i][0] + wd*nx, corners[i][1] + wd*ny}
+	}
+	r := append([][2]int{}, corners...)
+	for i := len(off) - 1; i >= 0; i-- {
+		r = append(r, off[i])
+	}
+	for i := range r {
+		for c := 0; c < 2; c++ {
+			if r[i][c] < 0 {
+				r[i][c] = 0
+			}
+			if r[i][c] > max {
+				r[i][c] = max
+			}
+		}
+	}
+	r = dedupConsecutive(r)
+	if rng.Intn(2) == 0 { // mirror: clockwise spiral
+		for i := range r {
+			r[i] = [2]int{r[i][1], r[i][0]}
+		}
+	}
+	return lpoly{r}
+}
